@@ -26,6 +26,7 @@ for d in sorted(glob.glob(os.path.join(ROOT, 'seeded', '*'))):
             'demo_exit_on_unmodified_tree': res.get('demo_base'), 'demo_exit_with_patch': res.get('demo_patched'),
             'patch_applies': res.get('apply'), 'test_suite_with_patch': suite,
         },
+        'base_tree': res.get('base', 'HEAD'),
         'checks': {k[6:]: v for k, v in res.items() if k.startswith('check_')},
         'detected': any(v['exit'] == 1 for k, v in res.items() if k.startswith('check_')),
         'detected_by_own_check': any(v['exit'] == 1 for k, v in res.items() if k.startswith('check_' + pid)),
